@@ -32,12 +32,24 @@ Definition obs_eqb (a b : obs) : bool :=
   | _, _ => false
   end.
 
+(* An uncompensated partial write (the write fails after k bytes AND the
+   compensating truncate fails too) leaves misaligned bytes in the file.  The
+   file model keeps only their number ("junk"), which is exact until a later
+   truncation happens to re-align the end of the file inside that region;
+   the comparison therefore stops at such a double fault (the properties say
+   nothing about states after it). *)
+Definition leaves_junk (o : op) : bool :=
+  match o with
+  | BWrite _ (WriteTruncFail _) | FWrite _ (WriteTruncFail _) => true
+  | _ => false
+  end.
+
 Fixpoint first_mismatch (g gfh : Z) (s : store) (i : Z) (tr : list (op * obs)) : option Z :=
   match tr with
   | [] => None
   | (o, ob) :: rest =>
     let '(s', mob) := step g gfh s o in
-    if obs_eqb mob ob then first_mismatch g gfh s' (i + 1) rest else Some i
+    if obs_eqb mob ob then (if leaves_junk o then None else first_mismatch g gfh s' (i + 1) rest) else Some i
   end.
 
 (* monitor: while every call so far was well-formed, the implementation's
